@@ -426,3 +426,37 @@ V("c20-save-wrong-writer", "fault", "C20", P + "polyhedron.py", '        elif fi
 V("c20-save-unknown-silent", "fault", "C20", P + "polyhedron.py",
   '        else:\n            raise ValueError(\n                "filetype must be one of the following: OBJ, OFF, "\n                "STL, PLY, VTK, X3D, HTML"\n            )', '        else:\n            io.to_obj(self, filename)', rule="DISP-1")
 V("c20-rw-join-generator", "rewrite", "C20", IO, "content += f\"v {' '.join([str(coord) for coord in v])}\\n\"", "content += \"v \" + ' '.join([str(coord) for coord in v]) + \"\\n\"")
+
+# ------------------------------------------------------------------------------------------ benign rewrites checked against ALL properties
+ALLP = [f"C{i:02d}" for i in range(1, 21) if i != 7]
+V("rw-all-rename-zero-q", "rewrite", ALLP, P + "polygon.py", "zero_q", "mask0", all=True)
+V("rw-all-rename-dots", "rewrite", ALLP, P + "polyhedron.py",
+  "        dots = np.inner(points, self._equations[:, :3])\n        distances = dots + self._equations[:, 3]",
+  "        proj = np.inner(points, self._equations[:, :3])\n        distances = proj + self._equations[:, 3]")
+V("rw-all-rename-eqn", "rewrite", ALLP, P + "polyhedron.py",
+  "        for face, eqn in zip(self.faces, self._equations):", "        for face, plane in zip(self.faces, self._equations):\n            eqn = plane")
+V("rw-all-reorder-refresh", "rewrite", ALLP, P + "convex_polyhedron.py",
+  "        self._find_equations()\n        self._find_simplex_equations()\n        self._centroid_from_triangulated_surface()\n        self._calculate_signed_volume()",
+  "        self._find_simplex_equations()\n        self._find_equations()\n        self._calculate_signed_volume()\n        self._centroid_from_triangulated_surface()")
+V("rw-all-guard-helper", "rewrite", ALLP, P + "sphere.py",
+  "    @radius.setter\n    def radius(self, value):\n        if value > 0:\n            self._radius = value\n        else:\n            raise ValueError(\"Radius must be greater than zero.\")",
+  "    @staticmethod\n    def _require_positive(value, what):\n        if not value > 0:\n            raise ValueError(f\"{what} must be greater than zero.\")\n\n    @radius.setter\n    def radius(self, value):\n        self._require_positive(value, \"Radius\")\n        self._radius = value")
+V("rw-all-rename-saved-centroid", "rewrite", ALLP, P + "polyhedron.py", "old_centroid", "saved_position", all=True)
+V("rw-all-scale-alias", "rewrite", ALLP, P + "convex_polyhedron.py",
+  "        self._vertices *= scale_factor\n        self._equations[:, 3] *= scale_factor\n        self._simplex_equations[:, 3] *= scale_factor\n        self._volume = self._volume * scale_factor**3\n        self._area = self._area * scale_factor**2",
+  "        s = scale_factor\n        self._vertices *= s\n        self._equations[:, 3] *= s\n        self._simplex_equations[:, 3] *= s\n        self._volume = self._volume * s**3\n        self._area = self._area * s * s")
+V("rw-all-sphere-volume-order", "rewrite", ALLP, P + "sphere.py", "return (4 / 3) * np.pi * self.radius**3", "return np.pi * self.radius**3 * 4 / 3")
+V("rw-all-is-inside-temp", "rewrite", ALLP, P + "ellipsoid.py",
+  "        points = np.atleast_2d(points) - self.centroid\n        scale = np.array([self.a, self.b, self.c])\n        return np.linalg.norm(points / scale, axis=-1) <= 1",
+  "        pts = np.atleast_2d(points)\n        pts = pts - self.centroid\n        semi_axes = np.array([self.a, self.b, self.c])\n        scaled = pts / semi_axes\n        return np.linalg.norm(scaled, axis=-1) <= 1")
+V("rw-all-gsd-local", "rewrite", ALLP, P + "circle.py",
+  '        return {"type": "Sphere", "diameter": 2 * self.radius}', '        spec = {"type": "Sphere", "diameter": self.radius * 2}\n        return spec')
+V("rw-all-io-rename-param", "rewrite", ALLP, "coxeter/io.py",
+  "    content = \"\"\n    content += (\n        f\"# wavefront obj file written by Coxeter \"",
+  "    content = \"\"\n    content = content + \"\"\n    content += (\n        f\"# wavefront obj file written by Coxeter \"")
+V("rw-all-translate-inertia-names", "rewrite", ALLP, P + "utils.py",
+  "    return inertia_tensor + volume * (inner * np.eye(3) - outer)", "    shift = volume * (inner * np.eye(3) - outer)\n    return inertia_tensor + shift")
+V("rw-all-perimeter-temp", "rewrite", ALLP, P + "polygon.py",
+  "        if value > 0:\n            scale = value / self.perimeter\n            self._rescale(scale)",
+  "        if value > 0:\n            current = self.perimeter\n            self._rescale(value / current)")
+V("rw-all-docstring-only", "rewrite", ALLP, P + "ellipse.py", '"""float: The eccentricity.', '"""float: The (first) eccentricity.')
